@@ -2,6 +2,7 @@ package checks
 
 import (
 	"fmt"
+	"time"
 
 	pt "github.com/weedbox/pokertable"
 
@@ -187,14 +188,118 @@ func init() {
 			return 100
 		},
 		RequiredFeatures: func(tier string) []string {
-			return []string{"side-pot", "split-or-multi-winner", "bust", "mid-hand-topup", "departure", "batch-leave", "batch-update", "released-while-hand-runs", "top-up-overlapping-the-open", "known:dealt-in-leave"}
+			return []string{"side-pot", "split-or-multi-winner", "bust", "mid-hand-topup", "departure", "batch-leave", "batch-update", "released-while-hand-runs", "top-up-overlapping-the-open", "top-ups-and-departure-during-open-retry", "known:dealt-in-leave"}
 		},
 		CaseTimeout: 180e9,
 		Run:         c01Run,
 	})
 }
 
+// c01TopUpsDuringOpenRetry: the first open is refused (one player seated in) and the engine waits to retry; in that
+// wait players top up, one leaves with his chips, the others sit in. Whatever the retry installs, the bankrolls it
+// opens the hand with are buy-ins + top-ups of those who stayed.
+func c01TopUpsDuringOpenRetry(c *h.Ctx) {
+	r := c.R
+	cfg := h.GenTable(r, h.GenOpts{MinSeats: 4, MaxSeats: 8, MinPlayers: 4, DeepOnly: true, Modes: []string{"ct", "cash"}})
+	cfg.Players = cfg.Players[:4]
+	s, err := h.NewSim(h.SimConfig{Setting: cfg.Setting(false), Interval: 0}, r.Int63())
+	if err != nil {
+		c.Inconclusive(err.Error())
+		return
+	}
+	exp := map[string]int64{}
+	for _, pl := range cfg.Players {
+		if err := s.Reserve(pl.ID, pl.Seat, pl.Chips); err != nil {
+			c.Inconclusive("reserve: " + err.Error())
+			return
+		}
+		exp[pl.ID] = pl.Chips
+	}
+	s.Join(cfg.Players[0].ID)
+	s.TE.StartTableGame()
+	e, ok := s.WaitFor(5*time.Second, func(e *h.Ev) bool { return e.Kind == h.EvSetup }, nil)
+	if !ok {
+		c.Inconclusive("no set-up")
+		return
+	}
+	s.SignalAll(h.SetupIDs(e.Setup))
+	if _, ok := s.WaitFor(5*time.Second, func(e *h.Ev) bool { return e.Kind == h.EvGateFire }, nil); !ok {
+		c.Inconclusive("gate did not fire")
+		return
+	}
+	time.Sleep(time.Duration(200+r.Intn(1200)) * time.Millisecond)
+	var ops []string
+	for k := 0; k < 3; k++ {
+		id := cfg.Players[r.Intn(3)].ID
+		chips := int64(1 + r.Intn(900))
+		var err error
+		if r.Intn(2) == 0 {
+			err = s.Reserve(id, -1, chips)
+			ops = append(ops, fmt.Sprintf("re-buy %s %d -> %v", id, chips, err))
+		} else {
+			err = s.Redeem(id, chips)
+			ops = append(ops, fmt.Sprintf("add-on %s %d -> %v", id, chips, err))
+		}
+		if err == nil {
+			exp[id] += chips
+		}
+	}
+	leaver := cfg.Players[3].ID
+	if r.Intn(3) != 0 {
+		leaver = ""
+	}
+	if leaver == "" {
+		// nobody leaves in this case
+	} else if err := s.Leave(leaver); err == nil {
+		delete(exp, leaver)
+		ops = append(ops, "leave "+leaver)
+	}
+	for _, pl := range cfg.Players[1:3] {
+		s.TE.PlayerJoin(pl.ID)
+		time.Sleep(400 * time.Microsecond)
+	}
+	var oe *h.Ev
+	s.WaitFor(9*time.Second, func(e *h.Ev) bool {
+		if e.Kind == h.EvTable && e.T != nil && e.T.State.Status == pt.TableStateStatus_TableGameOpened {
+			oe = e
+		}
+		return oe != nil
+	}, nil)
+	if oe == nil {
+		c.InconclusiveW("foreign: the retry did not open the hand within 9 s", map[string]interface{}{"cfg": cfg, "ops": ops, "trace": s.TraceTail(30)})
+		return
+	}
+	w := map[string]interface{}{"cfg": cfg, "operations_during_the_wait": ops, "ledger": exp, "opened": oe.Brief()}
+	seen := map[string]bool{}
+	for _, ps := range oe.T.State.PlayerStates {
+		seen[ps.PlayerID] = true
+		want, ok := exp[ps.PlayerID]
+		if !ok {
+			c.Violate("C01/open-retry/unknown-player-at-table", fmt.Sprintf("%s left while the engine waited to retry the open and is seated again with %d chips in the hand the retry opened", ps.PlayerID, ps.Bankroll), w)
+			return
+		}
+		if ps.Bankroll != want {
+			c.Violate("C01/open-retry/bankroll-differs-from-ledger", fmt.Sprintf("%s has %d chips in the hand the retry opened; buy-in plus the top-ups accepted while the engine waited make %d", ps.PlayerID, ps.Bankroll, want), w)
+			return
+		}
+	}
+	for id := range exp {
+		if !seen[id] {
+			c.Violate("C01/open-retry/player-lost", fmt.Sprintf("%s is missing from the hand the retry opened", id), w)
+			return
+		}
+	}
+	c.Feature("top-ups-and-departure-during-open-retry")
+	c.Nontrivial()
+	c.FP("open-retry", fmt.Sprintf("%+v", cfg), fmt.Sprint(ops))
+	c.Sample(map[string]interface{}{"kind": "top-ups / departure while the engine waits to retry a refused open", "ops": ops})
+}
+
 func c01Run(c *h.Ctx) {
+	if c.Case%40 == 11 {
+		c01TopUpsDuringOpenRetry(c)
+		return
+	}
 	// a fixed share of cases reproduces the recorded finding (dealt-in player leaves mid-hand)
 	if c.Case%40 == 7 {
 		c01KnownDealtInLeave(c)
